@@ -108,6 +108,9 @@ impl Listing {
     }
 
     pub fn renum(&mut self, new_start: u16, old_start: u16, step: u16) -> Result<(), Error> {
+        if step == 0 {
+            return Err(error!(IllegalFunctionCall));
+        }
         let mut changes: HashMap<u16, u16> = HashMap::default();
         let mut old_end: u16 = LineNumber::max_value() + 1;
         let mut new_num = new_start;
